@@ -9,7 +9,6 @@ import (
 	"verif/sqlrig"
 )
 
-// usage: vtprobe <dir> < script.sql   (one statement per line; lines starting with -- are echoed; "!restart" restarts)
 func main() {
 	dir := os.Args[1]
 	srv, err := sqlrig.Start(dir + "/data")
@@ -21,22 +20,7 @@ func main() {
 	sc.Buffer(make([]byte, 1<<20), 1<<24)
 	for sc.Scan() {
 		q := strings.TrimSpace(sc.Text())
-		if q == "" {
-			continue
-		}
-		if strings.HasPrefix(q, "--") {
-			fmt.Println(q)
-			continue
-		}
-		if q == "!restart" {
-			x.Close()
-			srv.Stop()
-			srv, err = sqlrig.Start(dir + "/data")
-			if err != nil {
-				panic(err)
-			}
-			x = srv.MustOpen("")
-			fmt.Println("RESTARTED")
+		if q == "" || strings.HasPrefix(q, "--") {
 			continue
 		}
 		fmt.Println(">", q)
@@ -44,9 +28,6 @@ func main() {
 		if err != nil {
 			fmt.Println("  ERR:", err)
 			continue
-		}
-		if len(r.Cols) > 0 {
-			fmt.Println("  cols:", strings.Join(r.Cols, " | "))
 		}
 		for _, row := range r.Data {
 			for i := range row {
